@@ -51,6 +51,88 @@ def check(case: dict) -> Verdict:
     return v
 
 
+BREAKER_ENTRIES = [f"{a}Policy{v}.{m}" for a in ("", "Async") for v in ("", ".noretry") for m in ("call", "execute")]
+
+
+@st.composite
+def breaker_case(draw):
+    p = dict(PROFILE)
+    p["multi_call"] = (2, 6)
+    p["abort"] = 0.1
+    case = draw(gen.retry_case(p))
+    spec = draw(gen.breaker_spec())
+    spec["threshold"] = draw(st.sampled_from([1, 1, 2]))
+    spec["recovery"] = draw(st.sampled_from([4, 16]))
+    case["cfg"]["breaker"] = spec
+    case["entries"] = draw(st.lists(st.sampled_from(BREAKER_ENTRIES), min_size=1, max_size=2))
+    for c in case["calls"]:
+        if gen.chance(draw, 0.5, "c14-adv"):
+            c["advance"] = draw(st.sampled_from([1, 4, 16, 17, 64]))
+    sinks = draw(st.sampled_from(["both", "both", "metric", "log"]))
+    case["placement"] = {"metric": sinks in ("both", "metric"), "log": sinks in ("both", "log")}
+    if gen.chance(draw, 0.3, "c14b-op"):
+        case["cfg"]["operation"] = draw(st.sampled_from(["fetch", "x"]))
+    return case
+
+
+def check_breaker_events(case: dict) -> Verdict:
+    """Breaker transitions and rejections are reported with attempt 0 and the breaker's state."""
+    v = Verdict()
+    out: list = []
+    entries = case["entries"]
+    if any(".noretry." in e for e in entries):
+        case = {**case, "cfg": {**case["cfg"], "result_classifier": False}}
+    env, cvs = C.run(case, entries[0])
+    pl = case.get("placement") or {}
+    has_m, has_l = pl.get("metric", True), pl.get("log", True)
+    op_name = case["cfg"].get("operation", "op")
+    transitions = 0
+    for cv in cvs:
+        evs = cv.events
+        expected: list = []  # (event name, state after, class or None)
+        for i, e in enumerate(evs):
+            if e[0] != "brk":
+                continue
+            _, method, arg, result, t = e
+            if method == "allow":
+                name, state = result[2], result[1]
+                klass = None
+            else:
+                name = result
+                state = {"circuit_closed": "closed", "circuit_opened": "open"}.get(result)
+                klass = arg if method == "record_failure" else None
+            if name is not None:
+                expected.append((name, state, klass))
+        got_m = [e for e in evs if e[0] == "metric" and e[1] in oracles.BREAKER_EVENTS]
+        got_l = [e for e in evs if e[0] == "log" and e[1] in oracles.BREAKER_EVENTS]
+        transitions += len(expected)
+        for sink, got in (("metric", got_m if has_m else None), ("log", got_l if has_l else None)):
+            if got is None:
+                continue
+            names = [g[1] for g in got]
+            if names != [x[0] for x in expected]:
+                out.append((f"C14:breaker-events:{sink}-sequence", f"call #{cv.j}: breaker reported {[x[0] for x in expected]} but the {sink} hook received {names}"))
+                continue
+            for g, (name, state, klass) in zip(got, expected):
+                if sink == "metric":
+                    attempt, sleep_s, tags = g[2], g[3], g[4]
+                else:
+                    f = dict(g[2])
+                    attempt, sleep_s = f.pop("attempt", None), f.pop("sleep_s", None)
+                    tags = f
+                if attempt != 0 or sleep_s != 0.0:
+                    out.append((f"C14:breaker-events:{sink}-attempt", f"{name} reported with attempt={attempt} sleep_s={sleep_s!r} (expected 0 / 0.0)"))
+                want = {"state": state, "operation": op_name}
+                if klass is not None:
+                    want["class"] = klass
+                if tags != want:
+                    out.append((f"C14:breaker-events:{sink}-tags", f"{name} reported with tags {tags}, expected {want}"))
+    v.violations = out
+    v.nontrivial = transitions >= 1
+    v.tag(f"breaker-events={min(transitions, 4)}")
+    return v
+
+
 PROP = Property(
     id="C14",
     level="exploration",
@@ -60,8 +142,13 @@ PROP = Property(
         "`success` iff success, else its stop_reason equals the delivered one (or, when call() re-raises, is one of the stop "
         "conditions that hold) and its event name matches; class/err/cause/operation tags describe the final classified "
         "failure; abort events carry only reason+operation; log fields = attempt, sleep_s + tags (+retry_after_s on retry); "
-        "timeline = same sequence. Breaker events are checked by C07/C09's policy-level streams. Non-trivial = >= 1 retry and a "
-        "non-success terminal, or an abort."
+        "timeline = same sequence. Second stream: sequences of 2-6 calls through Policy/AsyncPolicy entry points sharing a "
+        "breaker (threshold 1-2, short recovery, clock advances): every transition/rejection the breaker returns must reach both "
+        "sinks as that event with attempt 0, sleep_s 0.0 and tags {state, class for failures, operation}. Non-trivial = >= 1 "
+        "retry and a non-success terminal, or an abort; for the breaker stream >= 1 breaker event."
     ),
-    streams=[Stream("grammar", check, strategy=case_st(), quick=14000, thorough=300000)],
+    streams=[
+        Stream("grammar", check, strategy=case_st(), quick=14000, thorough=300000),
+        Stream("breaker_events", check_breaker_events, strategy=breaker_case(), quick=5000, thorough=100000),
+    ],
 )
